@@ -192,10 +192,10 @@ PROPS["C11"] = {
     "level": "proof",
     "tools": TOOLS,
     "technique": "Lean 4 proof (the three grouping algorithms split the sample sequence into consecutive groups whose concatenation is the input; interval partition of 1..N; sync starts) + correspondence of group sizes with the built tools / the library API + sample-conservation oracle on every output",
-    "level_text": "Model lean/Mp4ff/Model/Segmenter.lean transcribes examples/segmenter/segment.go (getSegmentStartsFromVideo, getSegmentIntervals), examples/resegmenter/resegment.go (Resegment loop) and mp4/mediasegment.go (Fragmentify); theorems in Props/C11.lean. Tie: binaries built from the working tree on every run; group sizes computed by the model are compared with the number of samples in every output segment/fragment. Direct oracle: every output of every tool mode (segmenter single/lazy/mux/muxlazy, resegmenter, Fragmentify through the API, combine-segs) is decoded and expanded with GetFullSamples and the concatenated per-track sample sequence compared with the input's (count, bytes, durations, flags, composition offsets, decode times); every produced segment starts with a sync sample of the reference track.",
+    "level_text": "Model lean/Mp4ff/Model/Segmenter.lean transcribes examples/segmenter/segment.go (getSegmentStartsFromVideo, getSegmentIntervals), examples/resegmenter/resegment.go (Resegment loop) and mp4/mediasegment.go (Fragmentify); lean/Mp4ff/Model/Combine.lean: examples/combine-segs as expansion with the input's trex followed by fresh runs per output track; theorems in Props/C11.lean. Tie: binaries built from the working tree on every run; group sizes computed by the model are compared with the number of samples in every output segment/fragment. Direct oracle: every output of every tool mode (segmenter single/lazy/mux/muxlazy, resegmenter, Fragmentify through the API, combine-segs) is decoded and expanded with GetFullSamples and the concatenated per-track sample sequence compared with the input's (count, bytes, durations, flags, composition offsets, decode times); every produced segment starts with a sync sample of the reference track.",
     "level_note": "Trusted: Lean kernel, allowed axioms, hand transcription validated by correspondence; examples are package main, observed through their output files.",
     "trusted": ["Model/Segmenter.lean hand transcription of the three grouping loops"],
-    "unmodelled": ["sample copying (GetFullSamplesForInterval, copyMediaData, AddFullSampleToTrack): direct oracle only", "combine-segs (multiplexing of two single-track segments): direct oracle only", "init segment creation of the segmenter"],
+    "unmodelled": ["sample copying (GetFullSamplesForInterval, copyMediaData, AddFullSampleToTrack): direct oracle only", "combine-segs: Model/Combine.lean composes the run read-back of C05 (tied by the C05 correspondence); the tool itself is observed by the direct oracle only (inputs incl. ones relying on trex defaults)", "init segment creation of the segmenter"],
     "partial": [],
     "assumptions": ["positive sample durations for the sync-start theorem of the segmenter's reference track", "sums of durations below 2^32 for Fragmentify's uint32 accumulator"],
 }
